@@ -62,7 +62,7 @@ static ALLOC: counting::Counting = counting::Counting;
 
 // ------------------------------------------------------------------ templates
 
-pub const KINDS: [&str; 18] = [
+pub const KINDS: [&str; 19] = [
     "pairs", "vectors", "strings", "closures", "continuations", "eval", "toplevel", "symbols",
     "bignums", "mixed", "errors", "syntaxerrors", "unbound", "globalrefs",
     // generated code whose LEXICAL variable names are fresh every iteration (handed to eval and dropped)
@@ -76,6 +76,10 @@ pub const KINDS: [&str; 18] = [
     // call/cc in a loop: the newest continuation is kept, the previous one travels on as a call argument (and
     // then sits in a dead stack slot): a continuation must retain stack[0..=sp] only
     "contchain",
+    // a sliced evaluation (prepare_eval + run_count) that is ABANDONED deep inside a recursion, followed by another
+    // complete evaluation, n times (what a host does that stops a runaway evaluation): the frames of the abandoned
+    // evaluation must not stay behind as roots
+    "abandoned",
 ];
 
 const BIG: &str = "(* 10000000000 10000000000)";
@@ -83,7 +87,7 @@ const BIG: &str = "(* 10000000000 10000000000)";
 /// `(mk j)`: one object of the kind, kept in the live list
 fn mk_body(kind: &str) -> String {
     match kind {
-        "pairs" | "sliced" => "(list j (cons j j))".into(),
+        "pairs" | "sliced" | "abandoned" => "(list j (cons j j))".into(),
         "vectors" => "(make-vector 4 j)".into(),
         "strings" => "(string-append \"live\" (number->string j))".into(),
         "closures" | "toplevel" | "errors" | "syntaxerrors" | "unbound" | "globalrefs" | "evallex" | "shorterrors" | "contchain" => "(let ((a j) (b (* j 2))) (lambda (x) (+ x a b)))".into(),
@@ -110,7 +114,7 @@ fn mk_body(kind: &str) -> String {
 /// `(garbage i)`: creates short-lived objects of the kind and drops them
 fn garbage_body(kind: &str) -> String {
     match kind {
-        "pairs" | "sliced" => "(car (list i (cons i i) (list i i i) (append (list i) (list i))))".into(),
+        "pairs" | "sliced" | "abandoned" => "(car (list i (cons i i) (list i i i) (append (list i) (list i))))".into(),
         "evallex" => "((lambda (v) (procedure? (eval (list 'lambda (list v) (list 'lambda '() v))))) (string->symbol (string-append \"lexvar\" (number->string i))))".into(),
         "vectors" => "(+ (vector-ref (make-vector 5 i) 0) (vector-length (vector i i i))
                          (vector-length (list->vector (list i i))) (vector-length (vector-copy (vector i 2))))"
@@ -299,6 +303,27 @@ fn run_template(kind: &str, live: usize, n: usize) -> Result<RunResult, String> 
                         failed += 1;
                     }
                     if i % 4096 == 0 {
+                        drain(&mut vm, &mut points);
+                    }
+                }
+            }
+            "abandoned" => {
+                if vm.eval_text("(define (sink d acc) (if (= d 0) (length acc) (+ 1 (sink (- d 1) (cons (list d d) acc)))))").is_err() {
+                    panic!("abandoned: setup failed");
+                }
+                let (deep, _) = marwood::parse::parse_text("(sink 100000 '())").unwrap();
+                for i in 0..(n / 50).max(4) {
+                    // a non-tail recursion holding fresh lists in its frames, stopped after 2000 instructions
+                    vm.prepare_eval(&deep).unwrap();
+                    match vm.run_count(2000) {
+                        Ok(None) => {}
+                        _ => panic!("abandoned: the deep evaluation ended early"),
+                    }
+                    // ... and the next form is evaluated instead
+                    if vm.eval_text("(loop 0 50)").is_err() {
+                        panic!("abandoned: loop failed");
+                    }
+                    if i % 64 == 0 {
                         drain(&mut vm, &mut points);
                     }
                 }
